@@ -120,10 +120,10 @@ def specNext (sp : SpecSt) (op : Op) (o : Obs) : SpecSt :=
   | .pump now => { sp with dts := dts, startNext := if sp.startNext ≤ now then now + 5 else sp.startNext }
   | _ => { sp with dts := dts }
 
-/-- First element of a list of checks that fails. -/
-def firstFail : List (Bool × Clause) → Option Clause
+/-- First enabled element of a list of checks that fails. -/
+def firstFailM (m : Clause → Bool) : List (Bool × Clause) → Option Clause
   | [] => none
-  | (ok, c) :: rest => if ok then firstFail rest else some c
+  | (ok, c) :: rest => if m c then (if ok then firstFailM m rest else some c) else firstFailM m rest
 
 /-- The existing set changes exactly as the operation says (`old`: known before the operation,
     `pre`: the same plus a downtime just created). -/
@@ -151,67 +151,131 @@ def flexDue (sp : SpecSt) (op : Op) (o : Obs) (d : SDt) : Option Int :=
     if o.rc == 1 && p.id == d.id && sp.problem && d.inWindow now then some (max (max d.start now) sp.since) else none
   | _ => none
 
-/-- Check one operation with its observation against the property; `sp` is the bookkeeping before. -/
-def specStep (sp : SpecSt) (op : Op) (o : Obs) : Option Clause :=
-  let now := op.now
-  let pre := preDts sp op o
-  let post := pre.map (SDt.after o)
-  let gone := fun (d : SDt) => d.alive && (obsTrig o d.id).isNone
-  let isPump := match op with | .pump _ => true | _ => false
-  let timerFired := isPump && decide (sp.startNext ≤ now)
-  let isAddOf := fun (i : Nat) => match op with | .add p _ => o.rc == 1 && p.id == i | _ => false
-  let dropped := match op with | .result _ _ _ => o.rc == 0 | _ => false
-  firstFail [
-    (existenceOK op o sp.dts pre, .existence),
-    (!dropped || (o.evs.isEmpty && pre.all (fun d => !d.alive || obsTrig o d.id == some d.trig)), .droppedResult),
-    -- in downtime exactly when some attached downtime is in effect; depth = their number
-    (o.inDt == post.any (fun d => d.alive && d.inEffect now), .inDowntimeIff),
-    (o.depth == (post.filter (fun d => d.alive && d.inEffect now)).length, .depthEqCount),
-    -- a trigger time once set never changes
-    ((pre.zip post).all (fun (a, b) => !(b.alive && a.trig != 0) || b.trig == a.trig), .triggerWriteOnce),
-    -- never triggered outside the window (an untriggered downtime is expired exactly after its end)
-    ((pre.zip post).all (fun (a, b) => !(b.alive && a.trig == 0 && b.trig != 0) || b.inWindow now), .triggerOnlyInWindow),
-    ((pre.zip post).all (fun (a, b) => !(gone a && a.trig == 0 && evCount o 3 a.id > 0) || a.inWindow now), .triggerOnlyInWindow),
-    -- flexible, not chained: takes effect at the first non-OK result (or existing problem) in the window
-    ((pre.zip post).all (fun (a, b) =>
-        !(b.alive && !a.fixed && a.trigBy == 0 && a.trig == 0) ||
-        (match flexDue sp op o a with
-         | some t => b.trig == t
-         | none => b.trig == 0)), .flexibleTrigger),
-    -- triggering a downtime triggers the downtimes chained to it
-    (post.all (fun c =>
-        !(c.alive && c.trigBy != 0 && evCount o 3 c.trigBy > 0 && !isAddOf c.id && c.trigWindow now && !c.over now) ||
-        c.trig != 0), .triggerCascade),
-    -- one DowntimeStart per downtime, present once it has taken effect
-    (post.all (fun d => d.starts ≤ 1), .startOnce),
-    (post.all (fun d => !(d.alive && d.trig != 0) || d.starts ≥ 1), .startedWhenTriggered),
-    (post.all (fun d => !(d.alive && d.fixed && (timerFired || isAddOf d.id) && d.inEffect now) ||
-                        (d.trig != 0 && d.starts ≥ 1)), .fixedStartedInWindow),
-    -- one DowntimeEnd, exactly for a downtime that took effect and now ends or is removed
-    ((pre.zip post).all (fun (a, b) =>
-        b.ends ≤ 1 &&
-        (evCount o 2 a.id == 0 || gone a) &&
-        (!(gone a && decide (0 < a.trig) && decide (a.trig ≤ now)) || evCount o 2 a.id == 1) &&
-        (!(gone a && a.trig == 0 && evCount o 3 a.id == 0) || evCount o 2 a.id == 0)), .endOnce),
-    (post.all (fun d => !(evCount o 2 d.id > 0) || d.starts ≥ 1), .endHasStart),
-    (pre.all (fun a => evCount o 4 a.id == (if gone a then 1 else 0)), .removedEvent),
-    -- expired downtimes are removed by the timers
-    (!isPump || post.all (fun d => !d.alive || !d.over now), .expiredRemoved),
-    -- downtimes owned by a schedule cannot be removed by users
-    ((match op with
-      | .remove id byUser _ =>
-        (match pre.find? (fun d => d.id == id && d.alive) with
-         | some d => (o.rc == 2) == (d.owner && byUser) && (o.rc != 2 || (obsTrig o id).isSome)
-         | none => o.rc == 0)
-      | _ => true), .ownerProtected)
-  ]
+def postDts (sp : SpecSt) (op : Op) (o : Obs) : List SDt := (preDts sp op o).map (SDt.after o)
 
-/-- Check a whole trace. -/
-def specTrace : SpecSt → List (Op × Obs) → Option Clause
+def gone (o : Obs) (d : SDt) : Bool := d.alive && (obsTrig o d.id).isNone
+
+def isPump : Op → Bool | .pump _ => true | _ => false
+
+def timerFired (sp : SpecSt) (op : Op) : Bool := isPump op && decide (sp.startNext ≤ op.now)
+
+def isAddOf (op : Op) (o : Obs) (i : Nat) : Bool :=
+  match op with | .add p _ => o.rc == 1 && p.id == i | _ => false
+
+def dropped (op : Op) (o : Obs) : Bool := match op with | .result _ _ _ => o.rc == 0 | _ => false
+
+def chkDropped (sp : SpecSt) (op : Op) (o : Obs) : Bool :=
+  !dropped op o || (o.evs.isEmpty && (preDts sp op o).all (fun d => !d.alive || obsTrig o d.id == some d.trig))
+
+/-- In downtime exactly when some attached downtime is in effect … -/
+def chkInDt (sp : SpecSt) (op : Op) (o : Obs) : Bool :=
+  o.inDt == (postDts sp op o).any (fun d => d.alive && d.inEffect op.now)
+
+/-- … and the depth is their number. -/
+def chkDepth (sp : SpecSt) (op : Op) (o : Obs) : Bool :=
+  o.depth == ((postDts sp op o).filter (fun d => d.alive && d.inEffect op.now)).length
+
+/-- A trigger time once set never changes. -/
+def chkWriteOnce (sp : SpecSt) (op : Op) (o : Obs) : Bool :=
+  ((preDts sp op o).zip (postDts sp op o)).all (fun (a, b) => !(b.alive && a.trig != 0) || b.trig == a.trig)
+
+/-- Never triggered outside the window (an untriggered downtime is expired exactly after its end). -/
+def chkWindow (sp : SpecSt) (op : Op) (o : Obs) : Bool :=
+  ((preDts sp op o).zip (postDts sp op o)).all (fun (a, b) => !(b.alive && a.trig == 0 && b.trig != 0) || b.inWindow op.now)
+
+def chkWindowGone (sp : SpecSt) (op : Op) (o : Obs) : Bool :=
+  ((preDts sp op o).zip (postDts sp op o)).all
+    (fun (a, _) => !(gone o a && a.trig == 0 && evCount o 3 a.id > 0) || a.inWindow op.now)
+
+/-- Flexible, not chained: takes effect at the first non-OK result (or existing problem) in the window. -/
+def chkFlexible (sp : SpecSt) (op : Op) (o : Obs) : Bool :=
+  ((preDts sp op o).zip (postDts sp op o)).all (fun (a, b) =>
+    !(b.alive && !a.fixed && a.trigBy == 0 && a.trig == 0) ||
+    (match flexDue sp op o a with
+     | some t => b.trig == t
+     | none => b.trig == 0))
+
+/-- Triggering a downtime triggers the downtimes chained to it. -/
+def chkCascade (sp : SpecSt) (op : Op) (o : Obs) : Bool :=
+  (postDts sp op o).all (fun c =>
+    !(c.alive && c.trigBy != 0 && evCount o 3 c.trigBy > 0 && !isAddOf op o c.id && c.trigWindow op.now && !c.over op.now) ||
+    c.trig != 0)
+
+/-- One DowntimeStart per downtime … -/
+def chkStartOnce (sp : SpecSt) (op : Op) (o : Obs) : Bool := (postDts sp op o).all (fun d => d.starts ≤ 1)
+
+/-- … present once it has taken effect. -/
+def chkStarted (sp : SpecSt) (op : Op) (o : Obs) : Bool :=
+  (postDts sp op o).all (fun d => !(d.alive && d.trig != 0) || d.starts ≥ 1)
+
+def chkFixedStarted (sp : SpecSt) (op : Op) (o : Obs) : Bool :=
+  (postDts sp op o).all (fun d =>
+    !(d.alive && d.fixed && (timerFired sp op || isAddOf op o d.id) && d.inEffect op.now) || (d.trig != 0 && d.starts ≥ 1))
+
+/-- One DowntimeEnd, exactly for a downtime that took effect and now ends or is removed. -/
+def chkEndOnce (sp : SpecSt) (op : Op) (o : Obs) : Bool :=
+  ((preDts sp op o).zip (postDts sp op o)).all (fun (a, b) =>
+    b.ends ≤ 1 &&
+    (evCount o 2 a.id == 0 || gone o a) &&
+    (!(gone o a && decide (0 < a.trig) && decide (a.trig ≤ op.now)) || evCount o 2 a.id == 1) &&
+    (!(gone o a && a.trig == 0 && evCount o 3 a.id == 0) || evCount o 2 a.id == 0))
+
+def chkEndHasStart (sp : SpecSt) (op : Op) (o : Obs) : Bool :=
+  (postDts sp op o).all (fun d => !(evCount o 2 d.id > 0) || d.starts ≥ 1)
+
+def chkRemovedEvent (sp : SpecSt) (op : Op) (o : Obs) : Bool :=
+  (preDts sp op o).all (fun a => evCount o 4 a.id == (if gone o a then 1 else 0))
+
+/-- Expired downtimes are removed by the timers. -/
+def chkExpired (sp : SpecSt) (op : Op) (o : Obs) : Bool :=
+  !isPump op || (postDts sp op o).all (fun d => !d.alive || !d.over op.now)
+
+/-- Downtimes owned by a schedule cannot be removed by users. -/
+def chkOwner (sp : SpecSt) (op : Op) (o : Obs) : Bool :=
+  match op with
+  | .remove id byUser _ =>
+    (match (preDts sp op o).find? (fun d => d.id == id && d.alive) with
+     | some d => (o.rc == 2) == (d.owner && byUser) && (o.rc != 2 || (obsTrig o id).isSome)
+     | none => o.rc == 0)
+  | _ => true
+
+/-- All clause checks of one operation, in reporting order. -/
+def specChecks (sp : SpecSt) (op : Op) (o : Obs) : List (Bool × Clause) :=
+  [ (existenceOK op o sp.dts (preDts sp op o), .existence),
+    (chkDropped sp op o, .droppedResult),
+    (chkInDt sp op o, .inDowntimeIff),
+    (chkDepth sp op o, .depthEqCount),
+    (chkWriteOnce sp op o, .triggerWriteOnce),
+    (chkWindow sp op o, .triggerOnlyInWindow),
+    (chkWindowGone sp op o, .triggerOnlyInWindow),
+    (chkFlexible sp op o, .flexibleTrigger),
+    (chkCascade sp op o, .triggerCascade),
+    (chkStartOnce sp op o, .startOnce),
+    (chkStarted sp op o, .startedWhenTriggered),
+    (chkFixedStarted sp op o, .fixedStartedInWindow),
+    (chkEndOnce sp op o, .endOnce),
+    (chkEndHasStart sp op o, .endHasStart),
+    (chkRemovedEvent sp op o, .removedEvent),
+    (chkExpired sp op o, .expiredRemoved),
+    (chkOwner sp op o, .ownerProtected) ]
+
+/-- Check one operation with its observation against the clauses enabled by `m`; `sp` is the
+    bookkeeping before. -/
+def specStepM (m : Clause → Bool) (sp : SpecSt) (op : Op) (o : Obs) : Option Clause :=
+  firstFailM m (specChecks sp op o)
+
+/-- … against the whole property. -/
+def specStep (sp : SpecSt) (op : Op) (o : Obs) : Option Clause := specStepM (fun _ => true) sp op o
+
+/-- Check a whole trace against the clauses enabled by `m`. -/
+def specTraceM (m : Clause → Bool) : SpecSt → List (Op × Obs) → Option Clause
   | _, [] => none
   | sp, (op, o) :: rest =>
-    match specStep sp op o with
+    match specStepM m sp op o with
     | some cl => some cl
-    | none => specTrace (specNext sp op o) rest
+    | none => specTraceM m (specNext sp op o) rest
+
+/-- Check a whole trace against the whole property. -/
+def specTrace (sp : SpecSt) (tr : List (Op × Obs)) : Option Clause := specTraceM (fun _ => true) sp tr
 
 end Icinga.C05
